@@ -170,6 +170,8 @@ func TestVerifC19(t *testing.T) {
 				c19HostileValues(c) // see c19hostile_test.go
 			} else if c.Index%64 == 11 {
 				c19CaseValues(c) // member names inside protocol values, differing only in letter case
+			} else if c.Index%64 == 43 {
+				c.Bubble("", func() { c19CoalescedSSE(c) }) // messages sharing a read with the endpoint event of an HTTP+SSE stream
 			} else if c.Index%64 == 27 {
 				c.Bubble("", func() { c19PaddedBodies(c) }) // insignificant whitespace around a POST body (single message or batch)
 			} else {
